@@ -335,14 +335,14 @@ impl TCheck for C07 {
     }
     fn works(&self, tier: Tier) -> u64 {
         match tier {
-            Tier::Quick => 96,
-            Tier::Thorough => 1200,
+            Tier::Quick => 320,
+            Tier::Thorough => 6000,
         }
     }
     fn scheds(&self, tier: Tier) -> u64 {
         match tier {
-            Tier::Quick => 40,
-            Tier::Thorough => 120,
+            Tier::Quick => 48,
+            Tier::Thorough => 160,
         }
     }
     fn prepare(&self, seed: u64, _tier: Tier, work: u64, scratch: &Path) -> Prepared {
